@@ -30,7 +30,18 @@ def base_world(seed, i):
         w = runprops.world_for("pres", seed, i, allow_shared=False, export_heavy=True)
         c14.only_in_export(w, vlib.rng_for(seed, "C17/src/%d" % i))
         return w
-    return runprops.world_for("pres", seed, i, allow_shared=False)
+    w = runprops.world_for("pres", seed, i, allow_shared=False)
+    if i % 5 == 3 and w.torrents:
+        # a content twin: the same name, layout and pieces with one more (uninterpreted) key in the info dictionary - another
+        # info-hash, another export subtree; both must be recovered, however the list is presented
+        import worldgen
+        rng = vlib.rng_for(seed, "C17/twin/%d" % i)
+        t = rng.choice(w.torrents)
+        twin = worldgen.TorrentSpec(t.name, t.piece_length, t.files, t.single, extra={rng.choice([b"source", b"private", b"x-note"]): rng.choice([b"tracker-a", 1, b""])})
+        if all(twin.info_hash != u.info_hash for u in w.torrents):
+            w.torrents.append(twin)
+            w.presented = list(w.presented) + [len(w.torrents) - 1]
+    return w
 
 
 def tree_of(rr):
